@@ -86,9 +86,19 @@ fn field_name<'a>(input: &mut &'a [u8]) -> ModalResult<&'a str, InputError<&'a [
     }
     pos += 1;
 
-    // Continue with alphanumeric and underscores
-    while pos < input.len() && (input[pos].is_ascii_alphanumeric() || input[pos] == b'_') {
-        pos += 1;
+    // Continue with alphanumerics, each optionally preceded by a single underscore:
+    // [A-Za-z](_?[A-Za-z0-9])*
+    while pos < input.len() {
+        if input[pos].is_ascii_alphanumeric() {
+            pos += 1;
+        } else if input[pos] == b'_'
+            && pos + 1 < input.len()
+            && input[pos + 1].is_ascii_alphanumeric()
+        {
+            pos += 2;
+        } else {
+            break;
+        }
     }
 
     let name_bytes = &start[0..pos];
